@@ -80,6 +80,21 @@ class BatcherRoles:
                 a = sattr(gc, n.ast.value)
                 if a and isinstance(self.attr_ctor.get(a), (ast.Dict, ast.Call)):
                     self.ret = a
+        self.ret_shared = False
+        if self.ret is None:
+            # a mapping defined in the class body and subscripted through self in __call__: one cache for every batcher
+            cls_maps = {}
+            for st_ in cls.node.body:
+                tg_ = st_.targets[0] if isinstance(st_, ast.Assign) and len(st_.targets) == 1 else getattr(st_, 'target', None) if isinstance(st_, ast.AnnAssign) else None
+                if isinstance(tg_, ast.Name) and getattr(st_, 'value', None) is not None and isinstance(st_.value, (ast.Dict, ast.Call)):
+                    cls_maps[tg_.id] = st_.value
+            for n in gc.nodes:
+                if n.kind in ('load_sub', 'store_sub'):
+                    a = sattr(gc, n.ast.value)
+                    if a in cls_maps:
+                        self.ret = a
+                        self.ret_shared = True
+                        self.attr_ctor.setdefault(a, cls_maps[a])
         # methods by behaviour
         self.process = self.assemble = self.dispatch = None
         for f in [s for s in u.functions() if s.enclosing_class() is cls]:
@@ -382,6 +397,8 @@ def c04(ctx: Ctx) -> None:
     ctx.rule('C04-B6', 'an answered future is removed from the per-batch dict before the sweeps', 1)
     ctx.rule('C04-B7', 'callers await the future stored under their key', 1)
     ctx.rule('C04-B8', 'the dispatcher spawns the batch task, never awaits it and never returns; the semaphore is taken with async with', 3)
+    ctx.rule('C04-B10', 'the futures callers share live in a strong dict owned by the batcher instance (= C11-R6)', 1)
+    _rule_retention_store(ctx, r, 'C04-B10')
     where = g.loc(r.batchcall)
     if r.kvar is None or r.batchfuts is None:
         ctx.violation('C04-B1', 'results are not matched through a per-batch key->future dict', where,
@@ -566,6 +583,33 @@ def c04(ctx: Ctx) -> None:
     r.publish(ctx)
 
 
+def _rule_retention_store(ctx: Ctx, r: BatcherRoles, rule: str) -> None:
+    """The retention cache is a plain dict built per batcher in the constructor: it holds its futures strongly (a weak-valued
+    mapping forgets a completed future as soon as nothing else refers to it - the window is silently ignored) and is not shared
+    between batchers (a class attribute would let one batcher's caller join another batcher's future)."""
+    v = r.attr_ctor.get(r.ret)
+    where = f'{FILE}:{getattr(v, "lineno", r.init.lineno)}'
+    kind = None
+    if isinstance(v, ast.Dict):
+        kind = 'dict display'
+    elif isinstance(v, ast.Call):
+        kind = Resolver(r.init).path(v.func) or norm(v.func)
+    ok_kind = kind in ('dict display', 'builtins.dict', 'dict', 'collections.OrderedDict')
+    if r.ret_shared:
+        ctx.violation(rule, f'{r.cls.name}.{r.ret} = {norm(v)} in the class body', where,
+                      'one retention cache for every batcher (also the per-loop batchers of the decorator): a call on one batcher joins the '
+                      'future of another batcher\'s request with the same key and receives its value',
+                      construct=construct_key(r.cls.qualname, 'retention cache shared'))
+    elif kind in ('weakref.WeakValueDictionary', 'weakref.WeakKeyDictionary', 'weakref.WeakSet'):
+        ctx.violation(rule, f'self.{r.ret} = {norm(v)}', where,
+                      'the retention cache holds its futures weakly: once the batch that answered a request is dropped the entry vanishes and '
+                      'retention_timeout is silently ignored', construct=construct_key(r.init.qualname, 'weak retention cache'))
+    elif ok_kind:
+        ctx.holds(rule, f'self.{r.ret} = {norm(v)}: a strong mapping of this batcher', where)
+    else:
+        ctx.undecided(rule, f'self.{r.ret} = {norm(v) if v is not None else None}', where, 'unrecognised mapping type for the retention cache')
+
+
 def _rule_dispatch(ctx: Ctx, r: BatcherRoles, rule: str) -> None:
     gd = r.gdisp
     def is_process_call(a) -> bool:
@@ -579,6 +623,17 @@ def _rule_dispatch(ctx: Ctx, r: BatcherRoles, rule: str) -> None:
               bool(spawn) and not awaited, 'spawned, not awaited: a failing or slow batch cannot stop the dispatcher',
               'the dispatcher awaits the batch (batches are serialised; a failing batch kills the dispatcher)',
               construct=construct_key(r.dispatch.qualname, 'dispatch'))
+    # ... nor looks at its outcome: `.result()` / `.exception()` of a finished batch task re-raises, inside the dispatcher,
+    # whatever ended that task (e.g. the InvalidStateError of a cancelled caller's future)
+    peeks = [n for n in gd.nodes if n.kind == 'call' and isinstance(n.ast.func, ast.Attribute) and n.ast.func.attr == 'result' and not n.ast.args
+             and not n.meta.get('inlined')]
+    for pk in peeks:
+        ee = [e for e in gd.succ[pk.id] if e.label == 'exc']
+        wpk = find_path(gd, [], [gd.raise_exit], start_edges=ee) if ee else None
+        ctx.check(rule, f'{norm(pk.ast)} in the dispatcher', gd.loc(pk), wpk is None,
+                  'an exception stored in a task cannot leave the dispatcher', 'the outcome of a finished task is re-raised inside the dispatcher: '
+                  'one batch that died (a cancelled caller is enough) ends the dispatcher - every later call is enqueued and never answered',
+                  witness=render(gd, wpk), construct=construct_key(r.dispatch.qualname, 'dispatcher re-raises a task outcome'))
     heads = [n for n in gd.nodes if n.kind == 'loop_head']
     w = find_path(gd, [gd.entry], [gd.exit])
     ctx.check(rule, 'the dispatcher loop has no normal exit', f'{FILE}:{r.dispatch.lineno}', w is None and bool(heads),
@@ -1022,6 +1077,22 @@ def c10(ctx: Ctx) -> None:
         ctx.check('C10-R5', 'TimeoutError of the bounded wait ends the batch', g.loc(n), bool(te) and w is None and bool(retL),
                   'the batch is returned as it is', 'after the timeout the assembler keeps waiting/growing (or the timeout escapes)',
                   witness=render(g, w), construct=construct_key(r.assemble.qualname, 'timeout does not end batch'))
+    # the batch is handed on only when it is full or the quiet period has expired: every path birth -> `return L` takes the
+    # "full" edge of the size guard or the TimeoutError edge of the bounded wait (calls less than batch_timeout apart share a batch)
+    if bounded and guards:
+        full_edges = {(b.id, 'false' if pol == 'true' else 'true') for b, pol, _ in guards}
+        te_ids = {id(e) for n in bounded for e in g.succ[n.id] if e.label == 'exc' and e.classes and 'TimeoutError' in e.classes}
+        retL_ = [x for x in g.nodes if x.kind == 'return' and isinstance(x.ast.value, ast.Name) and x.ast.value.id == L and not x.meta.get('inlined')]
+        starts_ = [e for e in g.succ[birth.id] if e.label != 'exc']
+        def _empty_edge(e) -> bool:
+            # `if not L:` after the one-element birth: the list only grows (R2), it is not empty
+            return e.src.kind == 'branch' and isinstance(e.src.meta['test'], ast.Name) and _is_L(e.src, e.src.meta['test']) and e.label == 'false'
+        wq = find_path(g, [], retL_, start_edges=starts_,
+                       edge_ok=lambda e: (e.src.id, e.label) not in full_edges and id(e) not in te_ids and not _empty_edge(e)) if retL_ else None
+        ctx.check('C10-R5', 'the batch ends only when full or when the bounded wait timed out', g.loc(birth), wq is None and bool(retL_),
+                  'every path to the hand-over passes the size limit or the expiry of batch_timeout',
+                  'a batch that is neither full nor timed out is handed over: a call arriving within batch_timeout of the last one no longer joins it',
+                  witness=render(g, wq), construct=construct_key(r.assemble.qualname, 'batch ends early'))
     if not bounded:
         ctx.violation('C10-R5', 'no bounded wait in the assembler', f'{FILE}:{r.assemble.lineno}',
                       'batch_timeout is never waited for', construct=construct_key(r.assemble.qualname, 'no bounded wait'))
@@ -1058,6 +1129,8 @@ def c11(ctx: Ctx) -> None:
     ctx.rule('C11-R3', 'every exit after the enqueue evicts: immediately when retention_timeout <= 0, else call_later(self.retention_timeout, RET.pop, key)', 2)
     ctx.rule('C11-R4', 'no RET mutation is reachable on the hit path', 1)
     ctx.rule('C11-R5', 'the default key is str(arg), an explicit key is used unchanged', 1)
+    ctx.rule('C11-R6', 'the retention cache is a strong dict owned by the batcher instance', 1)
+    _rule_retention_store(ctx, r, 'C11-R6')
     RET = r.ret
     lookups, miss, hit, lkeys = table_lookups(g, lambda e: sattr(g, e) == RET)
     stores = [n for n in g.nodes if n.kind == 'store_sub' and sattr(g, n.ast.value) == RET]
@@ -1139,6 +1212,7 @@ def c11(ctx: Ctx) -> None:
                   'an exit of the original caller leaves the key in the retention cache for ever (stale results / callers waiting for nothing)',
                   witness=render(g, w), construct=construct_key(r.call.qualname, 'exit without eviction'))
     # the branch between immediate and delayed eviction
+    ret_tests: List[Tuple[Node, str]] = []
     for n in g.nodes:
         t_res = resolve(g, n, n.meta['test']) if n.kind == 'branch' else None
         if n.kind == 'branch' and isinstance(t_res, ast.Compare) and any(
@@ -1176,6 +1250,7 @@ def c11(ctx: Ctx) -> None:
                 continue
             pos_edge = 'true' if pos_vals[0] else 'false'
             other = 'false' if pos_edge == 'true' else 'true'
+            ret_tests.append((n, other))
             rp = reach(g, [], start_edges=[e for e in g.succ[n.id] if e.label == pos_edge])
             rn = reach(g, [], start_edges=[e for e in g.succ[n.id] if e.label == other])
             okp = any(x.id in rp for x in evict_later) and not any(x.id in rp for x in evict_now)
@@ -1183,6 +1258,19 @@ def c11(ctx: Ctx) -> None:
             ctx.check('C11-R3', f'{norm(t)}: >0 -> delayed eviction, <=0 -> immediate', g.loc(n), okp and okn,
                       'window honoured', 'retention window ignored or inverted',
                       construct=construct_key(r.call.qualname, 'retention branch', t))
+    # an immediate eviction is governed by the "no window" outcome of the retention test: reaching one any other way forgets an
+    # outcome (say, a failure) inside the window it should be retained for
+    if ret_tests:
+        nowin = {(b.id, lab) for b, lab in ret_tests}
+        for en in evict_now:
+            for pn in puts:
+                wn = find_path(g, [], [en], start_edges=list(g.succ[pn.id]), edge_ok=lambda e: (e.src.id, e.label) not in nowin)
+                if wn is not None:
+                    ctx.violation('C11-R3', f'{norm(en.ast)} is reached without retention_timeout <= 0 having been established', g.loc(en),
+                                  'an outcome is dropped from the retention cache at once although a window was asked for: a later call inside '
+                                  'the window is computed again and can receive a different outcome', witness=render(g, wn),
+                                  construct=construct_key(r.call.qualname, 'unconditional immediate eviction', en.ast))
+                    break
     reach_all = reach(g, [g.entry])
     now_ok = any(x.id in reach_all for x in evict_now)
     later_ok = any(x.id in reach_all for x in evict_later)
